@@ -44,7 +44,7 @@ var (
 
 // excludeKnown keeps triggers of findings already saved under replays/C11 out of the
 // campaign (C11_INCLUDE_KNOWN=1 generates them again).
-var excludeKnown = os.Getenv("C11_INCLUDE_KNOWN") == ""
+var excludeKnown = os.Getenv("C11_EXCLUDE_FIXED") != "" // the three findings are repaired: generate their classes again
 
 type genCtx struct {
 	cs       bool
